@@ -36,6 +36,8 @@ type StopCase struct {
 	SlowN    int  // HandlerSlow: yields per call
 	// PrevCancel: the preceding attempt (if PrevOK) was ended by caller cancellation instead of the master's EOF
 	PrevCancel bool `json:",omitempty"`
+	// PrevFail: the preceding attempt (if PrevOK) was ended by a handler failure (reported correctly, one hopes)
+	PrevFail bool `json:",omitempty"`
 	// schedule perturbation at the library's log calls (through the exported SetLogger)
 	PerturbWho    int `json:",omitempty"` // 0 none, 1 reader goroutine, 2 Stream goroutine, 3 both
 	PerturbMicros int `json:",omitempty"`
@@ -173,6 +175,8 @@ func runStop(c *StopCase) *StopObs {
 				return nil
 			}})
 			pcancel()
+		} else if c.PrevFail {
+			st0 = ss.run(attempt{l: l, handler: func(tx *gobinlog.Transaction, st *attemptState) error { return errInjected }})
 		} else {
 			st0 = ss.run(attempt{l: l})
 		}
